@@ -60,8 +60,9 @@ pub mod std {
             crate::exec::park()
         }
         pub fn park_timeout(d: Duration) {
-            crate::exec::sleep_ns(d.as_nanos() as u64)
+            crate::exec::park_timeout_ns(d.as_nanos().min(u64::MAX as u128 / 4) as u64)
         }
+        pub use ::std::thread::panicking;
         pub fn yield_now() {
             crate::exec::yield_now()
         }
@@ -121,6 +122,16 @@ pub mod std {
             type Output = Instant;
             fn sub(self, d: Duration) -> Instant {
                 self.checked_sub(d).expect("overflow when subtracting duration from instant")
+            }
+        }
+        impl ::core::ops::AddAssign<Duration> for Instant {
+            fn add_assign(&mut self, d: Duration) {
+                *self = *self + d;
+            }
+        }
+        impl ::core::ops::SubAssign<Duration> for Instant {
+            fn sub_assign(&mut self, d: Duration) {
+                *self = *self - d;
             }
         }
         impl Sub<Instant> for Instant {
@@ -194,14 +205,14 @@ pub mod atomics {
                 pub fn store(&self, v: $t, ord: Ordering) {
                     exec::switch(false);
                     mon::atomic_store(self.addr(), ord);
-                    exec::note_progress();
+                    exec::note_modification(self.addr(), ::core::mem::size_of::<$t>(), unsafe { *self.0.get() } as u64);
                     unsafe { *self.0.get() = v }
                 }
                 #[inline]
                 fn rmw(&self, ord: Ordering, f: impl FnOnce($t) -> $t) -> $t {
                     exec::switch(false);
                     mon::atomic_rmw(self.addr(), ord);
-                    exec::note_progress();
+                    exec::note_modification(self.addr(), ::core::mem::size_of::<$t>(), unsafe { *self.0.get() } as u64);
                     unsafe {
                         let old = *self.0.get();
                         *self.0.get() = f(old);
@@ -217,7 +228,7 @@ pub mod atomics {
                     let old = unsafe { *self.0.get() };
                     if old == cur {
                         mon::atomic_rmw(self.addr(), ok);
-                        exec::note_progress();
+                        exec::note_modification(self.addr(), ::core::mem::size_of::<$t>(), old as u64);
                         unsafe { *self.0.get() = new };
                         Ok(old)
                     } else {
